@@ -24,10 +24,12 @@ class table_C_O_L_R_(DefaultTable.DefaultTable):
 
     @staticmethod
     def _decompileColorLayersV0(table):
-        if not table.LayerRecordArray:
+        if not table.BaseGlyphRecordArray:
             return {}
         colorLayerLists = {}
-        layerRecords = table.LayerRecordArray.LayerRecord
+        layerRecords = (
+            table.LayerRecordArray.LayerRecord if table.LayerRecordArray else []
+        )
         numLayerRecords = len(layerRecords)
         for baseRec in table.BaseGlyphRecordArray.BaseGlyphRecord:
             baseGlyph = baseRec.BaseGlyph
